@@ -74,11 +74,14 @@ let () =
           | ["SYNC"] -> TSync
           | ["SAVE"] -> TSave
           | ["REC"; i] -> TRecover (n_of_string i)
+          | ["STREAM"] -> TStream
           | _ -> failwith ("bad task " ^ o)) (split_ops body) in
         let st = handle_tasks (a_start applied init disk) tasks in
-        Printf.printf "%s apply err=%s index=%s calls=%s\n" id (string_of_n st.a_err) (string_of_n st.a_index)
+        Printf.printf "%s apply err=%s index=%s calls=%s streams=%s\n" id (string_of_n st.a_err) (string_of_n st.a_index)
           (match calls_of st with [] -> "-" | l ->
              String.concat "," (List.map (fun (i, p) -> string_of_n i ^ ":" ^ string_of_n p) l))
+          (match streams_of st with [] -> "-" | l ->
+             String.concat "," (List.map (function None -> "refused" | Some (i, od) -> string_of_n i ^ ":" ^ string_of_n od) l))
       | id :: _ -> Printf.printf "%s ?\n" id
       | [] -> ()
     end)
